@@ -66,10 +66,10 @@ def selftest(pid, mod, R):
         except Exception:
             continue
         if meta.get("detected_by") == pid:
-            seeds.append((os.path.basename(d), d))
+            seeds.append((os.path.basename(d), d, meta.get("cfg", "release")))
     results = []
     lost = False
-    for name, d in seeds:
+    for name, d, scfg in seeds:
         scratch = tempfile.mkdtemp(prefix="verif-scratch.%s." % name, dir="/var/tmp")
         try:
             subprocess.run(["rsync", "-a", "--exclude", "target", "--exclude", ".git", extract.REPO + "/", scratch + "/"], check=True)
@@ -79,20 +79,20 @@ def selftest(pid, mod, R):
                 results.append({"seed": name, "status": "skipped: patch does not apply to the current tree"})
                 continue
             try:
-                fd, tree, secs, cached = extract.extract("release", repo=scratch, quiet=True)
+                fd, tree, secs, cached = extract.extract(scfg, repo=scratch, quiet=True)
             except SystemExit as e:
                 results.append({"seed": name, "status": "skipped: patched tree does not build (%s)" % e})
                 continue
             R2 = Report(pid, "selftest", "")
             try:
                 F2 = FX.Facts(fd, mod.CRATES)
-                mod.run(F2, R2, "quick", "release")
+                mod.run(F2, R2, "quick", scfg)
             except FX.AnchorMissing as e:
                 R2.anchor_missing(str(e))
             vs = [v for v in R2.violations_unlisted() if v["rule"] not in ("stale-facts",)]
             rules = sorted({v["rule"] for v in vs})
             ok = bool(vs)
-            results.append({"seed": name, "status": "detected" if ok else "NOT DETECTED", "rules": rules, "violations": len(vs), "extract_s": round(secs, 1)})
+            results.append({"seed": name, "cfg": scfg, "status": "detected" if ok else "NOT DETECTED", "rules": rules, "violations": len(vs), "extract_s": round(secs, 1)})
             if not ok:
                 lost = True
         finally:
